@@ -1,6 +1,7 @@
 package cache
 
 import (
+	"io"
 	"io/ioutil"
 	"os"
 	"path/filepath"
@@ -34,6 +35,29 @@ func (f filebufferWithSize) Size() (int64, error) {
 func (f filebufferWithSize) Sync() error {
 	// No need to sync a in-memory buffer
 	return nil
+}
+
+func (f filebufferWithSize) Write(p []byte) (n int, err error) {
+	// filebuffer.Buffer.Write drops everything behind the offset when it is not at the end and does not
+	// fill the gap when it is beyond the end, so write like a file does instead
+	if _, err := f.Buffer.Seek(0, io.SeekCurrent); err != nil {
+		return 0, err
+	}
+
+	if gap := f.Index - int64(f.Buff.Len()); gap > 0 {
+		if _, err := f.Buff.Write(make([]byte, gap)); err != nil {
+			return 0, err
+		}
+	}
+
+	// Overwrite in place up to the end, append the rest
+	n = copy(f.Buff.Bytes()[f.Index:], p)
+
+	m, err := f.Buff.Write(p[n:])
+	n += m
+	f.Index += int64(n)
+
+	return n, err
 }
 
 func (f filebufferWithSize) Truncate(size int64) error {
